@@ -551,9 +551,14 @@ ImageMatches(r, g) ==
     /\ \A k \in KeysT : DefinedL(g, L, k, Top) => r.info.gets[k] = OracleL(L, k, Top)
     /\ OnlyDefinedL(r.info.scan, g, L, Top) = OnlyDefinedL(ScanOf(L, Top, FullBounds), g, L, Top)
 
-CrashOk(r, before, after) ==
+\* (an ingestion first flushes the pending memtables - a version of its own - and then
+\* registers the ingested table: a crash in between finds the state before the call with the
+\* acknowledged writes flushed, which is the logical content before the call)
+CrashOk(i, r, before, after) ==
     /\ r.info.open = "ok"
-    /\ ImageMatches(r, before) \/ ImageMatches(r, after)
+    /\ \/ ImageMatches(r, before) \/ ImageMatches(r, after)
+       \/ /\ r.pb > 0 /\ Rec[i - r.pb].op.op = "ingest"
+          /\ ImageMatches(r, AFlush(ARotate(before)))
 
 \* C06: after every critical section of a forced schedule: every published version is
 \* structurally sound and matches its tables' metadata, every needed file exists, and once
@@ -610,7 +615,7 @@ CheckLine(i, a, cfg, prev) ==
             \/ Say("VIOL", "OPFAIL", i, r.ret))
     ELSE IF r.ro /\ r.op.op = "nop" THEN TRUE
     ELSE IF r.ro /\ r.op.op = "crashimg" THEN
-        /\ (CrashOk(r, prev, a) \/ Say("VIOL", "CRASH", i, r.info))
+        /\ (CrashOk(i, r, prev, a) \/ Say("VIOL", "CRASH", i, r.info))
     ELSE IF r.ro THEN
         /\ (ScanLineOk(r, a) \/ Say("VIOL", "SCANX", i, <<r.op, r.info, ScanExpected(r, a)>>))
     ELSE
